@@ -17,7 +17,7 @@ pub const ASSUMPTIONS: &[&str] = &[
 ];
 
 pub fn panic_kind(p: &PanicInfo) -> String {
-    let file = p.file.strip_prefix("/repo/").unwrap_or(&p.file);
+    let file = p.file.strip_prefix(crate::driver::repo()).map(|f| f.trim_start_matches('/')).unwrap_or(&p.file);
     let file = match file.find("/registry/src/") {
         Some(i) => file[i + 14..].splitn(2, '/').nth(1).unwrap_or(file),
         None => file,
